@@ -883,6 +883,44 @@ func c03r7(c *an.Ctx) {
 		}
 		n++
 		_, ok := guardedByFieldLoad(guardAt, control, false)
+		if ret, isRet := in.(*ssa.Return); isRet && !ok && in.Parent() == hp {
+			// a return that merges "ignored" (nil) and "unknown kind" (error): judge each way of returning on its own
+			nErr, nOK := 0, 0
+			for _, rc := range an.ReturnCases(hp) {
+				if rc.Ret != ret || len(rc.Vals) == 0 || rc.Vals[0] == nil || an.IsNilConst(rc.Vals[0]) {
+					continue
+				}
+				nErr++
+				good := false
+				for _, g := range rc.Guards {
+					cnd, neg := an.StripNot(g.Cond)
+					if isLoadOfField(cnd, control) && g.True == neg {
+						good = true
+					}
+				}
+				if !good && rc.At != nil && len(rc.At.Instrs) > 0 {
+					sts := ctlRes.After(rc.At.Instrs[len(rc.At.Instrs)-1])
+					if len(sts) == 0 {
+						sts = ctlRes.Before(rc.At.Instrs[len(rc.At.Instrs)-1])
+					}
+					if rc.At == ret.Block() {
+						sts = ctlRes.Before(ret)
+					}
+					good = len(sts) > 0
+					for _, st := range sts {
+						if !hasTag(st, "nc") {
+							good = false
+						}
+					}
+				}
+				if good {
+					nOK++
+				}
+			}
+			if nErr > 0 && nOK == nErr {
+				ok = true
+			}
+		}
 		if !ok && in.Parent() == hp {
 			// path-sensitively: every way to the effect has seen the control bit clear
 			ok = len(ctlRes.Before(in)) > 0
@@ -1199,6 +1237,36 @@ func c03r12(c *an.Ctx) {
 		fromEmission = func(v ssa.Value, depth int) bool {
 			if depth > 5 || v == nil {
 				return false
+			}
+			if ld, isLd := an.Unwrap(v).(*ssa.UnOp); isLd && ld.Op == token.MUL {
+				// a local (or the named result) the emission's error was bound to
+				if al, isAl := ld.X.(*ssa.Alloc); isAl {
+					stores := an.ReachingStores(al, ld)
+					some := false
+					for _, st := range stores {
+						if st == nil || an.IsNilConst(st) {
+							continue
+						}
+						if !fromEmission(st, depth+1) {
+							return false
+						}
+						some = true
+					}
+					return some
+				}
+			}
+			if phi, isPhi := an.Unwrap(v).(*ssa.Phi); isPhi {
+				some := false
+				for _, e := range phi.Edges {
+					if an.IsNilConst(e) {
+						continue
+					}
+					if !fromEmission(e, depth+1) {
+						return false
+					}
+					some = true
+				}
+				return some
 			}
 			call, ok := an.Unwrap(v).(*ssa.Call)
 			if !ok {
